@@ -192,12 +192,14 @@ class Program:
 
 
 class PX:
-    def __init__(self, program, inline=True, max_depth=12, max_states=200000, opaque=(), wrap_returns=(),
+    def __init__(self, program, inline=True, max_depth=12, max_states=40000, opaque=(), wrap_returns=(),
                  inline_loops=False, trace=False):
         self.p = program
         self.inline = inline
         self.max_depth = max_depth
         self.max_states = max_states
+        self.max_heads = 150
+        self.heads_per_loop = {}
         self.opaque = set(opaque)
         self.wrap_returns = set(wrap_returns)
         self.inline_loops = inline_loops
@@ -868,6 +870,11 @@ class PX:
                 if node in self.seen_nodes:
                     continue
                 self.seen_nodes[node] = True
+                # a loop whose abstract states keep differing (a loop-carried value built from terms that are fresh in every iteration) never
+                # reaches a fixpoint: stop early instead of burning the whole state budget (today's parsers need at most 13 head nodes per loop)
+                self.heads_per_loop[bi] = self.heads_per_loop.get(bi, 0) + 1
+                if self.heads_per_loop[bi] > self.max_heads:
+                    raise Limit('the loop at block %d of %s does not reach a fixpoint within %d abstract states' % (bi, fn, self.max_heads))
                 st = st.copy()
                 src = node
                 ev0 = len(st.events)
